@@ -18,6 +18,7 @@ import (
 	"time"
 
 	"oras.land/oras-go/v2/zsim/simrt"
+	"oras.land/oras-go/v2/zsim/simsync"
 )
 
 // ---------- PRNG ----------
@@ -378,6 +379,7 @@ func runOne(t *testing.T, p Property, sc *Scenario, diskRoot string, n int, keep
 	}()
 	rc := &RunCtx{T: t, DiskDir: dir, KeepLog: keepLog, sc: sc}
 	simrt.ShuffleMaps.Store(sc.Sched.ShuffleMaps)
+	simsync.ResetPools() // package-level pools of the code under test start every scenario empty
 	info := p.Run(rc, sc)
 	info.Decisions = rc.Recorded
 	return info, rc
